@@ -63,6 +63,7 @@ func runC15Reopen(c *engine.Ctx) {
 		}
 		if k.IsSingle() {
 			u.buckets = []string{"aaa"}
+			u.keys = []string{"k", "d/x", ".modtime-resolution"} // the name of the backend's own probe file
 		}
 		ops := c02BuildOps(u)
 		name := "C15/reopen/" + string(k)
